@@ -351,6 +351,20 @@ func NoteHand(base unsafe.Pointer, offs []uintptr) {
 	}
 }
 
+// BarePoint is a scheduling point only for a thread that holds no lock at all.
+func BarePoint() {
+	s := active()
+	if s == nil || !s.YieldOnBareAccess {
+		return
+	}
+	t := s.me()
+	if t == nil || t.st == tsDone || len(t.held) > 0 {
+		return
+	}
+	t.st = tsPoint
+	s.yield(t)
+}
+
 // Point is a plain scheduling point (call boundaries, bare accesses).
 func Point() {
 	s := active()
